@@ -12,7 +12,7 @@ RULE = ('shapes = {RTS/CTS traced on the originator, RTS/CTS traced on the respo
         '{1,2,all} x latency profiles {<=1 ms, <=5 ms}, plus failing transfers against a scripted peer (abort on RTS / after the first data packet, CTS then silence, inbound session abandoned / aborted / half sent) traced on the real stack; one baseline run per shape counts the N source-line events the traced job thread executes '
         'in repository code during the transfer; then EVERY k in 1..N: the thread is parked at its k-th line for a hold in {0.2, 1, 5 ms} of virtual '
         'time while frame reception on the same stack goes on (exhaustive for one pre-emption); plus sampled runs with two pre-emptions (same or '
-        'both job threads); oracle = same outcome as the baseline: payload delivered intact exactly once, tables empty/pools full 8 s later, job '
+        'both job threads) and, in the thorough tier, EVERY pair of pre-emption points of one thread for the smallest connection-mode shapes; oracle = same outcome as the baseline: payload delivered intact exactly once, tables empty/pools full 8 s later, job '
         'threads alive and parked; a case = one (shape, hold) with all its k; non-trivial = the hold overlapped a frame reception at least once; '
         'distinct = shape x hold')
 ASSUMPTIONS = ['pre-emption granularity is the source line (sys.settrace line events in the job thread only); frame handlers run to completion',
@@ -54,6 +54,14 @@ def cases(tier, seed):
             for hold in (((0.005,) if mode == 'x_abort_at_t3' else (0.001,)) if tier == 'quick' else (0.0002, 0.001, 0.005)):
                 out.append(dict(kind='exhaustive', layer=layer, mode=mode, role='orig', w=2, lat=(0.0001, 0.001), hold=hold, size=unit * 4 - 2,
                                 seed=seed * 131 + len(out)))
+    if tier == 'thorough':
+        # every PAIR of pre-emption points (same thread) for the smallest shapes, split into slices of the first point
+        for layer in ('j1939-21', 'j1939-22'):
+            unit = 60 if layer == 'j1939-22' else 7
+            for role in ('orig', 'resp'):
+                for sl in range(8):
+                    out.append(dict(kind='pairs', layer=layer, mode='cmdt', role=role, w=1, lat=(0.0001, 0.001), hold=0.001, size=unit * 2 - 2,
+                                    slice=sl, slices=8, seed=seed * 131 + 7))
     nd = 150 if tier == 'quick' else 3000
     for i in range(nd):
         layer = rng.choice(['j1939-21', 'j1939-22'])
@@ -206,6 +214,20 @@ def run_case(case):
                 points.append(w[2])
             r['W'].close()
         sig = repr((case['layer'], case['mode'], case['role'], case['w'], tuple(case['lat']), case['hold']))
+    elif case['kind'] == 'pairs':
+        node = 'A' if case['role'] == 'orig' else 'B'
+        N = base['n'][node]
+        obs['line_events_baseline'] = N
+        for k1 in range(1 + case['slice'], N + 1, case['slices']):
+            for k2 in range(k1 + 1, N + 1):
+                r = one_run(case, {node: [(k1, case['hold']), (k2, case['hold'])]}, case['seed'])
+                obs['preempted_runs'] += 1
+                obs['holds_overlapping_reception'] += r['info']['overlap']
+                judge(case, r, viol, '%s %s traced=%s pair k=(%d,%d)' % (case['layer'], case['mode'], node, k1, k2), obs)
+                for w in r['info']['where']:
+                    points.append(w[2])
+                r['W'].close()
+        sig = repr(('pairs', case['layer'], case['role'], case['slice']))
     else:
         rng = random.Random(case['seed'])
         for i in range(case['n']):
